@@ -427,3 +427,51 @@ func VerifFrameLength() {
 	nondet.Assert(ok && s.Value == string(payload), "string payload changes in the round trip")
 	nondet.Cover("compared")
 }
+
+// VerifStreamBoundary: a stream longer than the decoder's 4096-byte read
+// buffer, with the second statement's frame header at every alignment around
+// the buffer boundary: number, order and content of the statements survive.
+func VerifStreamBoundary() {
+	n := 4070 + nondet.Choice("pad", 40)
+	nondet.Observe("n", n)
+	payload := make([]byte, n)
+	for i := range payload {
+		payload[i] = 'a'
+	}
+	payload[0] = nondet.Byte("first")
+	payload[n-1] = nondet.Byte("last")
+	t0, t1 := nondet.Byte("t0"), nondet.Byte("t1")
+	if payload[0] >= 0x80 || payload[n-1] >= 0x80 || t0 >= 0x80 || t1 >= 0x80 {
+		return
+	}
+	tail := string([]byte{t0, t1})
+	stmts := []ast.Statement{
+		&ast.LogStatement{Meta: rtMeta(), Value: &ast.String{Meta: rtMeta(), Value: string(payload)}},
+		&ast.LogStatement{Meta: rtMeta(), Value: &ast.String{Meta: rtMeta(), Value: tail}},
+		&ast.RestartStatement{Meta: rtMeta()},
+	}
+	bin, err := NewEncoder().Encodes(stmts)
+	if err != nil {
+		return
+	}
+	out, err := NewDecoder(bytes.NewReader(bin)).Decode()
+	nondet.Assert(err == nil, "decoding a stream longer than the read buffer fails")
+	if err != nil {
+		return
+	}
+	nondet.Assert(len(out) == 3, "the number of statements changes in a stream longer than the read buffer")
+	if len(out) != 3 {
+		return
+	}
+	l0, ok0 := out[0].(*ast.LogStatement)
+	l1, ok1 := out[1].(*ast.LogStatement)
+	_, ok2 := out[2].(*ast.RestartStatement)
+	nondet.Assert(ok0 && ok1 && ok2, "statement kinds change in a stream longer than the read buffer")
+	if !(ok0 && ok1 && ok2) {
+		return
+	}
+	s0, ok0 := l0.Value.(*ast.String)
+	s1, ok1 := l1.Value.(*ast.String)
+	nondet.Assert(ok0 && ok1 && s0.Value == string(payload) && s1.Value == tail, "string payloads change in a stream longer than the read buffer")
+	nondet.Cover("compared")
+}
